@@ -19,7 +19,13 @@ def main():
             rows = [json.loads(l) for l in open(path) if l.strip()]
             # entries of patches that no longer exist (renamed / withdrawn) are dropped
             rows = [r for r in rows if os.path.exists(os.path.join(VERIF, r.get("patch", "")))]
-            good = sum(1 for r in rows if r.get("status") in ("caught", "ok-silent"))
+            # a change filed under this property but located in another property's code may be caught by that check
+            via_other = {r["name"].split("@")[0]: r["name"].split("@")[1] for r in rows if "@" in r["name"] and r.get("status") == "caught"}
+            for r in rows:
+                if r.get("status") == "MISSED" and r["name"] in via_other:
+                    r["status"] = f"not by this check; caught by {via_other[r['name']]}'s check"
+            rows = [r for r in rows if "@" not in r["name"]]
+            good = sum(1 for r in rows if r.get("status") in ("caught", "ok-silent") or str(r.get("status")).startswith("not by this check"))
             out += [f"### {prop}: {good}/{len(rows)} as expected", "", "| change | outcome | passes the test suite | signature(s) reported | what it needs |", "|---|---|---|---|---|"]
             for r in rows:
                 sigs = "; ".join(sorted({s.split(" key=")[0].replace("signature=", "") for s in r.get("signatures", [])}))[:160]
